@@ -32,7 +32,22 @@
      (validate_loaded_never_raises_unguarded_refuted_metadata_key / _type_attribute), so the guard cannot be dropped while the
      tree is universally quantified.  loads_root_ok_iff: for a loaded value the guard is equivalent
      to root_ok_any, i.e. it is the weakest guard.
-   Part C (include_position=True): see the end of the file. *)
+   Part C (dictionaries WITH position records, every include_position):
+       validate_never_raises_positions_lemma : wf_schema tree = true -> avoid_pos tree = true ->
+                                               root_okP d = true -> exists msgs, run_validator tree d = Ok msgs
+       validate_loaded_never_raises_positions : wf_schema tree = true -> avoid_pos tree = true ->
+           posok_any v = true -> loads ip ic text = Ok v -> exists msgs, run_validator tree v = Ok msgs
+       validate_loaded_never_raises_positions_map : the same for the generated map schema (no tree hypothesis)
+     [avoid_pos tree]: the schema does not look BELOW __position__ entries (boolean function of the tree,
+     true of every shipped schema: shipped_avoid_pos; ierr_paths_avoid_position: then no error path goes
+     below a __position__ key).  [posok_any v]: for every dict of v that has a __position__ entry and every
+     key the message can be named after, the record create_message reads line / column from is a dict or
+     a non-empty list of dicts (boolean function of the value, stated with the model's own lookups).
+     Both guards are needed (five _refuted theorems with artificial trees); posok is PARTIAL with respect
+     to loads: that loaded values satisfy it is not proved (it is false exactly on the reserved-key quirks:
+     a key-value block key spelled line / column / values, a CONFIG key spelled __position__, a __type__
+     attribute whose value is spelled line / column / values, METADATA "__position__" with comments) -
+     what loads contributes is Part A.  nopos_posok: the guard of Part B implies this one. *)
 From MF Require Import Lib.Base Lib.Json Lib.PyDict Lib.PyNum Model.GrammarTypes Model.Lexer Model.LR
   Model.Case Model.Transformer Model.Api Model.SchemaStore Model.Schema Model.Validator
   Gen.Tokens Gen.Grammar Gen.Schemas
@@ -1485,3 +1500,719 @@ Qed.
 Theorem error_paths_valid_any :
   forall tree d e, In e (ierr tree (jsn_of d)) -> valid (jsn_of d) e.
 Proof. intros tree d e He. exact (ierr_paths_valid tree (jsn_of d) e (jnodup_jsn_any d) He). Qed.
+
+(* ================================================================ Part C1: schema trees that do not look below __position__ *)
+(* An error path goes BELOW a __position__ entry only when the schema names that key: as a property
+   with a structured schema, through a pattern property whose schema is not {}, or through an
+   additionalProperties schema.  [avoid_pos] is a boolean function of the schema tree excluding the
+   three (a property __position__ with a schema of leaf keywords only, like {"type": "object"} in
+   layer.json, is allowed: its errors END at the key); the generated schemas satisfy it. *)
+Definition pfree (p : list pelem) : bool :=
+  forallb (fun x => match x with PKey k => negb (str_eqb k s_position) | PIdx _ => true end) p.
+
+(* the path up to its last step *)
+Definition pend (p : list pelem) : bool := pfree (removelast p).
+
+(* a schema all of whose errors are located at the instance itself *)
+Definition shallow (s : json) : bool :=
+  match s with
+  | JObj kws =>
+      forallb (fun kv => negb (str_eqb (fst kv) Schema.K_properties) && negb (str_eqb (fst kv) K_patternProperties)
+                         && negb (str_eqb (fst kv) K_items) && negb (str_eqb (fst kv) K_allOf)
+                         && (negb (str_eqb (fst kv) K_additionalProperties)
+                             || match snd kv with JObj _ => false | _ => true end)) kws
+  | _ => true
+  end.
+
+Definition pos_not_additional (kws : list (str * json)) : bool :=
+  let props := match assoc Schema.K_properties kws with Some (JObj p) => p | _ => [] end in
+  let pats := match assoc K_patternProperties kws with Some (JObj p) => keys p | _ => [] end in
+  od_mem s_position props || existsb (fun p => rx_search p s_position) pats.
+
+Definition kw_avoid (kws : list (str * json)) (kv : str * json) : bool :=
+  if str_eqb (fst kv) Schema.K_properties then
+    match snd kv with
+    | JObj props => forallb (fun ps => negb (str_eqb (fst ps) s_position) || shallow (snd ps)) props
+    | _ => true
+    end
+  else if str_eqb (fst kv) K_patternProperties then
+    match snd kv with
+    | JObj pps => forallb (fun ps => negb (rx_search (fst ps) s_position) || json_eqb (snd ps) (JObj [])) pps
+    | _ => true
+    end
+  else if str_eqb (fst kv) K_additionalProperties then
+    match snd kv with JObj _ => pos_not_additional kws | _ => true end
+  else true.
+
+Definition pos_node (n : json) : bool :=
+  match n with JObj kws => forallb (kw_avoid kws) kws | _ => true end.
+
+Definition avoid_pos (tree : json) : bool := jall pos_node tree.
+
+Lemma map_tree_avoid_pos : avoid_pos map_tree = true.
+Proof. vm_compute. reflexivity. Qed.
+
+Lemma shipped_avoid_pos : forallb (fun kv => avoid_pos (expand schema_files (snd kv))) schema_files = true.
+Proof. vm_compute. reflexivity. Qed.
+
+Lemma pend_push k e : str_eqb k s_position = false -> pend (epath e) = true -> pend (epath (push (PKey k) e)) = true.
+Proof.
+  intros Hk He. unfold pend in *. cbn [push epath]. destruct (epath e) as [|x l]; [reflexivity|].
+  change (removelast (PKey k :: x :: l)) with (PKey k :: removelast (x :: l)).
+  cbn [pfree forallb]. rewrite Hk. exact He.
+Qed.
+
+Lemma pend_push_idx i e : pend (epath e) = true -> pend (epath (push (PIdx i) e)) = true.
+Proof.
+  intros He. unfold pend in *. cbn [push epath]. destruct (epath e) as [|x l]; [reflexivity|].
+  change (removelast (PIdx i :: x :: l)) with (PIdx i :: removelast (x :: l)). exact He.
+Qed.
+
+Lemma pend_push_here p e : epath e = [] -> pend (epath (push p e)) = true.
+Proof. intros He. unfold pend. cbn [push epath]. rewrite He. reflexivity. Qed.
+
+Lemma shallow_here s x e : shallow s = true -> In e (ierr s x) -> epath e = [].
+Proof.
+  intros Hs He. destruct s as [| | | | | |kws]; try destruct He.
+  rewrite ierr_unfold in He. apply in_flat_map in He. destruct He as ([k v] & Hin & He). cbn [fst snd] in He.
+  cbn [shallow] in Hs. rewrite forallb_forall in Hs. specialize (Hs _ Hin). cbn [fst snd] in Hs.
+  assert (Hleaf : In e (leaf_errs k v kws x) -> epath e = []).
+  { intros Hl. pose proof (leaf_errs_here k v kws x) as Hh. rewrite Forall_forall in Hh. exact (Hh e Hl). }
+  assert (Hh1 : forall (c : bool) kw, In e (if c then [] else here kw) -> epath e = [])
+    by (intros c kw; destruct c; [intros []|intros [<-|[]]; reflexivity]).
+  assert (Hh2 : forall (c : bool) kw, In e (if c then here kw else []) -> epath e = [])
+    by (intros c kw; destruct c; [intros [<-|[]]; reflexivity|intros []]).
+  unfold kw_errs in He.
+  destruct (str_eqb k Schema.K_properties); [discriminate Hs|].
+  destruct (str_eqb k K_patternProperties); [discriminate Hs|].
+  destruct (str_eqb k K_additionalProperties).
+  { cbn [negb andb orb] in Hs. destruct v; try (apply Hleaf; exact He). rewrite andb_false_r in Hs. discriminate Hs. }
+  destruct (str_eqb k K_items); [discriminate Hs|].
+  destruct (str_eqb k K_allOf); [discriminate Hs|].
+  destruct (str_eqb k K_anyOf); [destruct v; try destruct He; eapply Hh1; exact He|].
+  destruct (str_eqb k K_oneOf); [destruct v; try destruct He; eapply Hh1; exact He|].
+  destruct (str_eqb k K_not); [eapply Hh2; exact He|].
+  apply Hleaf. exact He.
+Qed.
+
+Lemma json_eqb_empty_obj s : json_eqb s (JObj []) = true -> s = JObj [].
+Proof. destruct s as [| | | | | |l]; try discriminate. destruct l as [|[k v] l]; [reflexivity|discriminate]. Qed.
+
+Lemma ierr_empty_schema x : ierr (JObj []) x = [].
+Proof. rewrite ierr_unfold. reflexivity. Qed.
+
+Lemma jall_obj_member p k v l : jall p (JObj l) = true -> In (k, v) l -> jall p v = true.
+Proof.
+  rewrite jall_obj, andb_true_iff. intros [_ H] Hin. rewrite forallb_forall in H. exact (H (k, v) Hin).
+Qed.
+
+Lemma jall_arr_member p x l : jall p (JArr l) = true -> In x l -> jall p x = true.
+Proof.
+  rewrite jall_arr, andb_true_iff. intros [_ H] Hin. rewrite forallb_forall in H. exact (H x Hin).
+Qed.
+
+Lemma in_if_here_pfree (c : bool) kw e : In e (if c then [] else here kw) -> pend (epath e) = true.
+Proof. destruct c; [intros []|]. intros [<-|[]]. reflexivity. Qed.
+
+Lemma in_if_here_pfree' (c : bool) kw e : In e (if c then here kw else []) -> pend (epath e) = true.
+Proof. destruct c; [|intros []]. intros [<-|[]]. reflexivity. Qed.
+
+Lemma in_members_inv_rx (rec : json -> json -> list verr) pat sub inst e :
+  In e ((fix mloop (ms : list (str * json)) : list verr :=
+           match ms with
+           | [] => []
+           | (mk, x) :: ms' =>
+               (if rx_search pat mk then map (push (PKey mk)) (rec sub x) else []) ++ mloop ms'
+           end) inst) ->
+  exists mk x e', rx_search pat mk = true /\ In e' (rec sub x) /\ e = push (PKey mk) e'.
+Proof.
+  induction inst as [|[mk x] inst IH]; intros H; [destruct H|].
+  apply in_app_or in H. destruct H as [H|H].
+  - destruct (rx_search pat mk) eqn:Er; [|destruct H].
+    apply in_map_iff in H. destruct H as (e' & <- & He'). exists mk, x, e'. auto.
+  - exact (IH H).
+Qed.
+
+Lemma in_pprops_inv_rx (rec : json -> json -> list verr) pps inst e :
+  In e (pprops_errs rec pps inst) ->
+  exists pat sub mk x e', In (pat, sub) pps /\ rx_search pat mk = true /\ In e' (rec sub x) /\ e = push (PKey mk) e'.
+Proof.
+  induction pps as [|[pat sub] pps IH]; intros H; [destruct H|].
+  cbn [pprops_errs] in H. apply in_app_or in H. destruct H as [H|H].
+  - destruct (in_members_inv_rx rec pat sub inst e H) as (mk & x & e' & A & B & C).
+    exists pat, sub, mk, x, e'. split; [left; reflexivity|auto].
+  - destruct (IH H) as (pat' & sub' & mk & x & e' & A & B & C & D).
+    exists pat', sub', mk, x, e'. split; [right; exact A|auto].
+Qed.
+
+(* one keyword *)
+Lemma kw_pfree k v kws j e :
+  In (k, v) kws -> jall pos_node (JObj kws) = true ->
+  (forall sub, (jsize sub <= jsize v)%nat -> jall pos_node sub = true ->
+               forall x e', In e' (ierr sub x) -> pend (epath e') = true) ->
+  In e (kw_errs ierr k v kws j) -> pend (epath e) = true.
+Proof.
+  intros Hkv Hall IH H.
+  assert (Hleaf : In e (leaf_errs k v kws j) -> pend (epath e) = true).
+  { intros Hl. pose proof (leaf_errs_here k v kws j) as Hh. rewrite Forall_forall in Hh.
+    rewrite (Hh e Hl). reflexivity. }
+  pose proof (jall_obj_member _ _ _ _ Hall Hkv) as Hv.
+  assert (Hnode : kw_avoid kws (k, v) = true).
+  { apply jall_here in Hall. cbn [pos_node] in Hall. rewrite forallb_forall in Hall. exact (Hall _ Hkv). }
+  unfold kw_avoid in Hnode. cbn [fst snd] in Hnode.
+  assert (IHo : forall l p sub, v = JObj l -> In (p, sub) l ->
+                forall x e', In e' (ierr sub x) -> pend (epath e') = true).
+  { intros l p sub -> Hin. apply IH; [apply Nat.lt_le_incl; eapply jsize_obj_in; exact Hin|].
+    eapply jall_obj_member; eassumption. }
+  assert (IHa : forall l sub, v = JArr l -> In sub l ->
+                forall x e', In e' (ierr sub x) -> pend (epath e') = true).
+  { intros l sub -> Hin. apply IH; [apply Nat.lt_le_incl; eapply jsize_arr_in; exact Hin|].
+    eapply jall_arr_member; eassumption. }
+  unfold kw_errs in H.
+  destruct (str_eqb k Schema.K_properties).
+  { destruct v as [| | | | | |props]; try destruct H. destruct j as [| | | | | |inst]; try destruct H.
+    destruct (in_props_inv _ _ _ _ H) as (pk & sub & x & e' & A & B & C & ->).
+    rewrite forallb_forall in Hnode. specialize (Hnode _ A). cbn [fst snd] in Hnode.
+    destruct (str_eqb pk s_position) eqn:Ep.
+    - cbn [negb orb] in Hnode. apply pend_push_here. eapply shallow_here; eassumption.
+    - apply pend_push; [exact Ep|]. exact (IHo props pk sub eq_refl A x e' C). }
+  destruct (str_eqb k K_patternProperties).
+  { destruct v as [| | | | | |pps]; try destruct H. destruct j as [| | | | | |inst]; try destruct H.
+    destruct (in_pprops_inv_rx _ _ _ _ H) as (pat & sub & mk & x & e' & A & B & C & ->).
+    rewrite forallb_forall in Hnode. specialize (Hnode _ A). cbn [fst snd] in Hnode.
+    apply pend_push; [|exact (IHo pps pat sub eq_refl A x e' C)].
+    destruct (str_eqb_spec mk s_position) as [->|]; [|reflexivity]. exfalso.
+    rewrite B in Hnode. cbn [negb orb] in Hnode. apply json_eqb_empty_obj in Hnode. subst sub.
+    rewrite ierr_empty_schema in C. destruct C. }
+  destruct (str_eqb k K_additionalProperties).
+  { destruct v as [| | | | | |sch]; try (apply Hleaf; exact H).
+    destruct j as [| | | | | |inst]; try (apply Hleaf; exact H).
+    cbv beta in H. destruct (in_addl_inv _ _ _ _ H) as (mk & x & e' & A & C & ->).
+    apply pend_push; [|exact (IH (JObj sch) (Nat.le_refl _) Hv x e' C)].
+    destruct (str_eqb_spec mk s_position) as [->|]; [|reflexivity]. exfalso.
+    unfold find_additional in A. apply filter_In in A. destruct A as [_ A]. cbn [fst] in A.
+    unfold pos_not_additional in Hnode. apply orb_true_iff in Hnode. apply andb_true_iff in A. destruct A as [A1 A2].
+    destruct Hnode as [Hn|Hn]; [rewrite Hn in A1|rewrite Hn in A2]; discriminate. }
+  destruct (str_eqb k K_items).
+  { destruct v as [| | | | |subs|sch]; try destruct H.
+    - destruct j as [| | | | |xs|]; try destruct H.
+      unfold tuple_errs in H. destruct (in_tuple_inv _ _ _ _ _ H) as (sub & i & x & e' & A & B & C & ->).
+      apply pend_push_idx. exact (IHa subs sub eq_refl A x e' C).
+    - destruct j as [| | | | |xs|]; try destruct H.
+      unfold items_errs in H. destruct (in_items_inv _ _ _ _ _ H) as (i & x & e' & B & C & ->).
+      apply pend_push_idx. exact (IH (JObj sch) (Nat.le_refl _) Hv x e' C). }
+  destruct (str_eqb k K_allOf).
+  { destruct v as [| | | | |subs|]; try destruct H.
+    destruct (in_allof_inv _ _ _ _ H) as (sub & A & B). exact (IHa subs sub eq_refl A j e B). }
+  destruct (str_eqb k K_anyOf).
+  { destruct v as [| | | | |subs|]; try destruct H. eapply in_if_here_pfree; exact H. }
+  destruct (str_eqb k K_oneOf).
+  { destruct v as [| | | | |subs|]; try destruct H. eapply in_if_here_pfree; exact H. }
+  destruct (str_eqb k K_not).
+  { eapply in_if_here_pfree'; exact H. }
+  apply Hleaf. exact H.
+Qed.
+
+Lemma ierr_pfree_size n :
+  forall s, (jsize s < n)%nat -> jall pos_node s = true -> forall j e, In e (ierr s j) -> pend (epath e) = true.
+Proof.
+  induction n as [|n IH]; intros s Hs Hall j e He; [lia|].
+  destruct s as [| | | | | |kws]; try destruct He.
+  rewrite ierr_unfold in He. apply in_flat_map in He. destruct He as ([k v] & Hin & He). cbn [fst snd] in He.
+  apply (kw_pfree k v kws j e Hin Hall); [|exact He].
+  intros sub Hle. apply IH. pose proof (jsize_obj_in k v kws Hin). lia.
+Qed.
+
+(* no error path of such a tree goes below a __position__ key *)
+Theorem ierr_paths_avoid_position s j e : avoid_pos s = true -> In e (ierr s j) -> pend (epath e) = true.
+Proof. intros Ha He. exact (ierr_pfree_size (S (jsize s)) s (Nat.lt_succ_diag_r _) Ha j e He). Qed.
+
+(* ================================================================ Part C2: dictionaries carrying position records *)
+(* what create_message needs of a dict [d] that has a __position__ entry, for every key the message can
+   be named after (a key of d, or d's own __type__): the record it ends up reading line / column from is
+   a dict, or a non-empty list of dicts.  Stated with the model's own lookups, so that it can be
+   evaluated on any value. *)
+Definition recordish (pd : value) : bool :=
+  match pd with
+  | VDict _ _ => true
+  | VList l => negb (is_nil l) && forallb is_dict l
+  | _ => false
+  end.
+
+Definition rget (r : res value) : bool := match r with Ok pd => recordish pd | Err _ => false end.
+
+Definition key_ok (d posd : value) (k : str) : bool :=
+  match dict_get d k with
+  | Ok child =>
+      match (if is_dict child then contains child K_dposition else Ok false) with
+      | Ok true => rget (getitem child (PKey K_dposition))
+      | Ok false =>
+          match contains posd k with
+          | Ok true => rget (getitem posd (PKey k))
+          | Ok false => recordish posd
+          | Err _ => false
+          end
+      | Err _ => false
+      end
+  | Err _ => false
+  end.
+
+Definition tyname (items : list (str * value)) : list str :=
+  match assoc K_dtype items with Some (VStr t) => [t] | _ => [] end.
+
+Definition posok_dict (d : value) : bool :=
+  match d with
+  | VDict c items =>
+      match contains d K_dposition with
+      | Ok true =>
+          match getitem d (PKey K_dposition) with
+          | Ok posd => recordish posd && forallb (key_ok d posd) (keys items ++ tyname items)
+          | Err _ => false
+          end
+      | Ok false => true
+      | Err _ => false
+      end
+  | _ => true
+  end.
+
+(* every dict of the value, not looking below __position__ keys *)
+Fixpoint posok (d : value) : bool :=
+  match d with
+  | VDict c items =>
+      posok_dict (VDict c items)
+      && (fix go (l : list (str * value)) : bool :=
+            match l with [] => true | (k, v) :: l' => (str_eqb k K_dposition || posok v) && go l' end) items
+  | VList l => (fix go (l : list value) : bool :=
+                  match l with [] => true | x :: l' => posok x && go l' end) l
+  | _ => true
+  end.
+
+Lemma posok_dict_eq c items :
+  posok (VDict c items) =
+  posok_dict (VDict c items) && forallb (fun kv => str_eqb (fst kv) K_dposition || posok (snd kv)) items.
+Proof.
+  cbn [posok]. f_equal. induction items as [|[k v] items IH]; [reflexivity|]. cbn [forallb fst snd]. rewrite IH. reflexivity.
+Qed.
+
+Lemma posok_list l : posok (VList l) = forallb posok l.
+Proof. cbn [posok]. induction l as [|x l IH]; [reflexivity|]. cbn [forallb]. rewrite IH. reflexivity. Qed.
+
+Lemma last_opt_v_In l r : last_opt_v l = Some r -> In r l.
+Proof.
+  induction l as [|x l IH]; [discriminate|]. cbn [last_opt_v]. destruct l as [|y l'].
+  - intros [= ->]. left. reflexivity.
+  - intros H. right. apply IH. exact H.
+Qed.
+
+Lemma last_opt_v_nonempty l : l <> [] -> exists r, last_opt_v l = Some r.
+Proof.
+  induction l as [|x l IH]; [congruence|]. intros _. cbn [last_opt_v]. destruct l as [|y l'].
+  - eexists. reflexivity.
+  - apply IH. discriminate.
+Qed.
+
+Lemma recordish_pick key path pd :
+  recordish pd = true -> exists c items, pick_record key path pd = Ok (VDict c items).
+Proof.
+  destruct pd as [| | | | |l|c items]; try discriminate.
+  - cbn [recordish pick_record]. intros H. apply andb_true_iff in H. destruct H as [Hne Hd].
+    rewrite forallb_forall in Hd.
+    assert (Hin : forall r, In r l -> exists c items, r = VDict c items).
+    { intros r Hr. specialize (Hd r Hr). destruct r; try discriminate. eexists _, _. reflexivity. }
+    cbv zeta. destruct (nth_error l _) as [r|] eqn:En.
+    + destruct (Hin r (nth_error_In _ _ En)) as (c & items & ->). eexists _, _. reflexivity.
+    + destruct (last_opt_v_nonempty l) as (r & Er); [destruct l; [discriminate Hne|discriminate]|].
+      rewrite Er. destruct (Hin r (last_opt_v_In _ _ Er)) as (c & items & ->). eexists _, _. reflexivity.
+  - intros _. eexists _, _. reflexivity.
+Qed.
+
+Lemma dict_get_dict c items k : exists v, dict_get (VDict c items) k = Ok v.
+Proof. destruct c; cbn [dict_get]; eexists; reflexivity. Qed.
+
+Lemma read_record e base key pd :
+  recordish pd = true ->
+  exists m, (do pd1 <- pick_record key (epath e) pd;
+             do line <- dict_get pd1 (Str "line");
+             do column <- dict_get pd1 (Str "column");
+             Ok (VDict DPlain (base ++ [(Str "line", line); (Str "column", column)]))) = Ok m.
+Proof.
+  intros H. destruct (recordish_pick key (epath e) pd H) as (c & items & ->). cbn [bind].
+  destruct (dict_get_dict c items (Str "line")) as (ln & ->). cbn [bind].
+  destruct (dict_get_dict c items (Str "column")) as (cl & ->). cbn [bind]. eexists. reflexivity.
+Qed.
+
+(* the tail of create_message succeeds *)
+Lemma finish_ok e c items k :
+  posok_dict (VDict c items) = true -> In k (keys items ++ tyname items) ->
+  exists m, finish_message e (VDict c items) k = Ok m.
+Proof.
+  intros Hp Hk. unfold finish_message. cbv zeta. unfold posok_dict in Hp.
+  destruct (contains (VDict c items) K_dposition) as [[|]|]; try discriminate; cbn [bind];
+    [|eexists; reflexivity].
+  destruct (getitem (VDict c items) (PKey K_dposition)) as [posd|] eqn:Eg; [|discriminate].
+  apply andb_true_iff in Hp. destruct Hp as [Hr Hks]. rewrite forallb_forall in Hks. specialize (Hks k Hk).
+  destruct (is_nil (epath e)) eqn:En.
+  - cbn [bind is_dict]. apply read_record. exact Hr.
+  - unfold key_ok in Hks.
+    destruct (dict_get (VDict c items) k) as [child|]; [|discriminate]. cbn [bind].
+    destruct (if is_dict child then contains child K_dposition else Ok false) as [[|]|]; try discriminate; cbn [bind].
+    + destruct (getitem child (PKey K_dposition)) as [pd|]; [|discriminate]. cbn [bind rget] in *.
+      apply read_record. exact Hks.
+    + destruct (contains posd k) as [[|]|]; try discriminate; cbn [bind].
+      * destruct (getitem posd (PKey k)) as [pd|]; [|discriminate]. cbn [bind rget] in *. apply read_record. exact Hks.
+      * apply read_record. exact Hks.
+Qed.
+
+(* ---------------------------------------------------------------- navigation (as in C07Paths, for shapedS) *)
+Definition notpos (p : pelem) : bool := match p with PKey k => negb (str_eqb k s_position) | PIdx _ => true end.
+
+Lemma step_corrP d p node :
+  shapedS d = true -> posok d = true -> notpos p = true -> jstep (jsn_of d) p = Some node ->
+  exists d', getitem d p = Ok d' /\ jsn_of d' = node /\ shapedS d' = true /\ posok d' = true /\
+             match p with PIdx _ => typed d' = true | PKey _ => True end.
+Proof.
+  intros Hs Hpo Hnp Hj. destruct d as [| | | | |l|c items]; try (unfold jsn_of in Hj; cbn in Hj; destruct p; discriminate).
+  - rewrite jsn_of_list in Hj. destruct p as [k|i]; [discriminate|]. cbn [jstep] in Hj.
+    rewrite nth_error_map in Hj. destruct (nth_error l (N.to_nat i)) as [x|] eqn:En; [|discriminate].
+    injection Hj as <-. rewrite shapedS_list, forallb_forall in Hs. rewrite posok_list, forallb_forall in Hpo.
+    specialize (Hs x (nth_error_In _ _ En)). rewrite andb_true_iff in Hs. destruct Hs as [H1 H2].
+    exists x. cbn [getitem]. rewrite En. split; [reflexivity|]. split; [reflexivity|].
+    split; [exact H1|]. split; [exact (Hpo x (nth_error_In _ _ En))|exact H2].
+  - rewrite shapedS_dict, !andb_true_iff in Hs. destruct Hs as [[Hl Hn] Hv].
+    rewrite posok_dict_eq, andb_true_iff in Hpo. destruct Hpo as [_ Hpv].
+    rewrite (jsn_of_dict c items Hl Hn) in Hj. destruct p as [k|i]; [|discriminate]. cbn [jstep] in Hj.
+    rewrite C07Paths.assoc_map_snd in Hj. destruct (assoc k items) as [v|] eqn:Ea; [|discriminate].
+    injection Hj as <-. exists v. split; [apply getitem_present_key; assumption|].
+    rewrite forallb_forall in Hv, Hpv. pose proof (assoc_Some_in _ _ _ Ea) as Hin.
+    specialize (Hv _ Hin). specialize (Hpv _ Hin). cbn [fst snd] in Hv, Hpv. cbn [notpos] in Hnp.
+    apply negb_true_iff in Hnp. change K_dposition with s_position in Hv, Hpv. rewrite Hnp in Hv, Hpv.
+    cbn [orb] in Hv, Hpv. auto.
+Qed.
+
+Lemma find_corrP p : forall d node,
+  shapedS d = true -> posok d = true -> forallb notpos p = true -> jfind (jsn_of d) p = Some node ->
+  exists d', findkey d p = Ok d' /\ jsn_of d' = node /\ shapedS d' = true /\ posok d' = true.
+Proof.
+  induction p as [|x p IH]; intros d node Hs Hpo Hnp Hj.
+  - injection Hj as <-. exists d. auto.
+  - cbn [jfind] in Hj. destruct (jstep (jsn_of d) x) as [n1|] eqn:E1; [|discriminate].
+    cbn [forallb] in Hnp. apply andb_true_iff in Hnp. destruct Hnp as [Hx Hp].
+    destruct (step_corrP d x n1 Hs Hpo Hx E1) as (d1 & G1 & J1 & S1 & P1 & _).
+    rewrite <- J1 in Hj. destruct (IH d1 node S1 P1 Hp Hj) as (d' & G & J & S & P).
+    exists d'. cbn [findkey]. rewrite G1. cbn [bind]. auto.
+Qed.
+
+Lemma pfree_notpos p : pfree p = forallb notpos p.
+Proof. reflexivity. Qed.
+
+(* a dict whose JSON image has the key has it itself *)
+Lemma jstep_key_In c items k node :
+  shapedS (VDict c items) = true -> jstep (jsn_of (VDict c items)) (PKey k) = Some node -> In k (keys items).
+Proof.
+  intros Hs Hj. rewrite shapedS_dict, !andb_true_iff in Hs. destruct Hs as [[Hl Hn] _].
+  rewrite (jsn_of_dict c items Hl Hn) in Hj. cbn [jstep] in Hj. rewrite C07Paths.assoc_map_snd in Hj.
+  destruct (assoc k items) as [v|] eqn:Ea; [|discriminate]. eapply In_keys. apply assoc_Some_in. exact Ea.
+Qed.
+
+Lemma typed_getitem c items :
+  shapedS (VDict c items) = true -> typed (VDict c items) = true ->
+  exists ty, getitem (VDict c items) (PKey K_dtype) = Ok (VStr ty) /\ In ty (tyname items).
+Proof.
+  intros Hs Ht. rewrite shapedS_dict, !andb_true_iff in Hs. destruct Hs as [[Hl _] _].
+  cbn [typed] in Ht. unfold tyname. destruct (assoc K_dtype items) as [tv|] eqn:Ea; [|discriminate].
+  destruct tv as [| | | |ty| |]; try discriminate. exists ty. split; [|left; reflexivity].
+  apply getitem_present_key; assumption.
+Qed.
+
+Lemma posok_here c items : posok (VDict c items) = true -> posok_dict (VDict c items) = true.
+Proof. rewrite posok_dict_eq, andb_true_iff. tauto. Qed.
+
+(* create_message returns, for every error whose path does not go below a __position__ entry *)
+Lemma shapedP_message d e :
+  shapedS d = true -> posok d = true -> typed d = true -> is_dict d = true ->
+  valid (jsn_of d) e -> pend (epath e) = true -> exists m, create_message d e = Ok m.
+Proof.
+  intros Hs Hpo Ht Hd (node & Hv) Hpe. rewrite create_message_target. unfold target.
+  destruct (epath e) as [|p0 ps] eqn:Ep.
+  - destruct d as [| | | | | |c items]; try discriminate. cbn [bind fst snd].
+    destruct (typed_getitem c items Hs Ht) as (ty & -> & Hin). cbn [bind].
+    apply finish_ok; [apply posok_here; exact Hpo|apply in_or_app; right; exact Hin].
+  - assert (Hne : p0 :: ps <> []) by discriminate.
+    destruct (exists_last Hne) as (pre & x & Epath). rewrite Epath in *.
+    unfold pend in Hpe. rewrite removelast_last in Hpe.
+    rewrite last_last, removelast_last.
+    rewrite jfind_app in Hv. destruct (jfind (jsn_of d) pre) as [nP|] eqn:EP; [|discriminate].
+    destruct (find_corrP pre d nP Hs Hpo Hpe EP) as (dP & GP & JP & SP & PP).
+    cbn [jfind] in Hv. destruct (jstep nP x) as [nX|] eqn:EX; [|discriminate].
+    destruct x as [k|i].
+    + rewrite GP. cbn [bind fst snd].
+      assert (HdP : is_dict dP = true).
+      { destruct nP; try discriminate. eapply jsn_obj_is_dict; exact JP. }
+      destruct dP as [| | | | | |c items]; try discriminate.
+      apply finish_ok; [apply posok_here; exact PP|]. apply in_or_app. left.
+      rewrite <- JP in EX. eapply jstep_key_In; eassumption.
+    + rewrite findkey_app, GP. cbn [bind findkey].
+      rewrite <- JP in EX. destruct (step_corrP dP (PIdx i) nX SP PP eq_refl EX) as (o & GO & JO & SO & PO & TO).
+      rewrite GO. cbn [bind].
+      destruct (is_dict o) eqn:Eo.
+      * destruct o as [| | | | | |c items]; try discriminate. cbn [bind fst snd].
+        destruct (typed_getitem c items SO TO) as (ty & -> & Hin). cbn [bind].
+        apply finish_ok; [apply posok_here; exact PO|apply in_or_app; right; exact Hin].
+      * destruct (last_key (pre ++ [PIdx i])) as [[kpre k]|] eqn:Elk.
+        -- destruct (last_key_split _ _ _ Elk) as (rest & Esplit).
+           assert (Hpk : forallb notpos kpre = true).
+           { assert (Hall : forallb notpos (pre ++ [PIdx i]) = true)
+               by (rewrite forallb_app, <- pfree_notpos, Hpe; reflexivity).
+             rewrite Esplit, forallb_app in Hall. apply andb_true_iff in Hall. tauto. }
+           assert (Hvk : exists nK nk, jfind (jsn_of d) kpre = Some nK /\ jstep nK (PKey k) = Some nk).
+           { assert (Hfull : jfind (jsn_of d) (pre ++ [PIdx i]) = Some nX).
+             { rewrite jfind_app, EP. cbn [jfind]. rewrite <- JP, EX. reflexivity. }
+             rewrite Esplit, jfind_app in Hfull.
+             destruct (jfind (jsn_of d) kpre) as [nK|]; [|discriminate].
+             cbn [jfind] in Hfull. destruct (jstep nK (PKey k)) as [nk|] eqn:Ek; [|discriminate].
+             exists nK, nk. auto. }
+           destruct Hvk as (nK & nk & EK & Ek).
+           destruct (find_corrP kpre d nK Hs Hpo Hpk EK) as (dK & GK & JK & SK & PK).
+           rewrite GK. cbn [bind fst snd].
+           assert (HdK : is_dict dK = true).
+           { destruct nK; try discriminate. eapply jsn_obj_is_dict; exact JK. }
+           destruct dK as [| | | | | |c items]; try discriminate.
+           apply finish_ok; [apply posok_here; exact PK|]. apply in_or_app. left.
+           rewrite <- JK in Ek. eapply jstep_key_In; eassumption.
+        -- exfalso. rewrite <- Epath in Elk.
+           destruct d as [| | | | | |c items]; try discriminate.
+           assert (Hfull : jfind (jsn_of (VDict c items)) (p0 :: ps) <> None).
+           { rewrite Epath, jfind_app, EP. cbn [jfind]. rewrite <- JP, EX. discriminate. }
+           rewrite shapedS_dict, !andb_true_iff in Hs. destruct Hs as [[Hl Hn] _].
+           rewrite (jsn_of_dict c items Hl Hn) in Hfull.
+           destruct p0 as [k0|i0]; [exact (last_key_first k0 ps Elk)|].
+           apply Hfull. reflexivity.
+Qed.
+
+Definition root_okP (d : value) : bool := shapedS d && posok d && typed d && is_dict d.
+
+(* C07 "validate never raises" for dictionaries WITH position records: every schema tree the model covers
+   that does not look below __position__ entries, every root dictionary satisfying root_okP *)
+Theorem validate_never_raises_positions_lemma tree d :
+  wf_schema tree = true -> avoid_pos tree = true -> root_okP d = true -> exists msgs, run_validator tree d = Ok msgs.
+Proof.
+  intros Hwf Hav Hr. unfold root_okP in Hr. rewrite !andb_true_iff in Hr. destruct Hr as [[[Hs Hpo] Ht] Hd].
+  unfold run_validator. rewrite Hwf. destruct d as [| | | | | |c items]; try discriminate.
+  unfold _get_errors.
+  assert (Hall : forall errs, (forall e, In e errs -> exists m, create_message (VDict c items) e = Ok m) ->
+                              exists msgs, get_error_messages (VDict c items) errs = Ok msgs).
+  { induction errs as [|e errs IH]; intros H; [exists []; reflexivity|].
+    destruct (H e (or_introl eq_refl)) as (m & Hm).
+    destruct (IH (fun e' He' => H e' (or_intror He'))) as (ms & Hms).
+    exists (m :: ms). cbn [get_error_messages]. rewrite Hm, Hms. reflexivity. }
+  apply Hall. intros e He. apply shapedP_message; try assumption.
+  - exact (error_paths_valid_any tree (VDict c items) e He).
+  - exact (ierr_paths_avoid_position tree _ e Hav He).
+Qed.
+
+Theorem validate_list_never_raises_positions_lemma tree ds :
+  wf_schema tree = true -> avoid_pos tree = true -> forallb root_okP ds = true ->
+  exists msgs, run_validator tree (VList ds) = Ok msgs.
+Proof.
+  intros Hwf Hav Hr. rewrite (list_is_pointwise_lemma tree ds Hwf). apply res_concat_ok.
+  apply Forall_forall. intros r Hin. apply in_map_iff in Hin. destruct Hin as (d & <- & Hd).
+  rewrite forallb_forall in Hr. specialize (Hr d Hd).
+  destruct (validate_never_raises_positions_lemma tree d Hwf Hav Hr) as (m & Hm). exists m.
+  unfold root_okP in Hr. rewrite !andb_true_iff in Hr. destruct Hr as [_ Hdict].
+  rewrite run_validator_single in Hm by (destruct d; try discriminate; exact I).
+  rewrite Hwf in Hm. exact Hm.
+Qed.
+
+(* ================================================================ Part C3: loads, every include_position *)
+Definition posok_any (v : value) : bool := any_root posok v.
+
+Lemma root_okP_any v : root_okS_any v -> posok_any v = true -> any_root root_okP v = true.
+Proof.
+  unfold root_okS_any, posok_any. destruct v as [| | | | |l|c items]; cbn [any_root];
+    try (unfold root_okS, root_okP; intros H Hp; rewrite !andb_true_iff in *; tauto).
+  intros H Hp. rewrite forallb_forall in *. intros x Hx. specialize (H x Hx). specialize (Hp x Hx).
+  unfold root_okS, root_okP in *. rewrite !andb_true_iff in *. tauto.
+Qed.
+
+(* the positive statement with positions: loads contributes lower-case distinct keys and typed list
+   members (Part A); what is left as a guard is [posok_any v], a boolean function of the value that
+   only speaks about the dicts carrying a __position__ entry *)
+Theorem validate_loaded_never_raises_positions :
+  forall tree ip ic text v, wf_schema tree = true -> avoid_pos tree = true -> posok_any v = true ->
+    loads ip ic text = Ok v -> exists msgs, run_validator tree v = Ok msgs.
+Proof.
+  intros tree ip ic text v Hwf Hav Hp H.
+  pose proof (root_okP_any v (loads_root_okS ip ic text v H) Hp) as Hr.
+  destruct v as [| | | | |l|c items]; cbn [any_root] in Hr;
+    try (apply validate_never_raises_positions_lemma; assumption).
+  apply validate_list_never_raises_positions_lemma; assumption.
+Qed.
+
+(* for the shipped map schema *)
+Theorem validate_loaded_never_raises_positions_map :
+  forall ip ic text v, posok_any v = true -> loads ip ic text = Ok v ->
+    exists msgs, run_validator map_tree v = Ok msgs.
+Proof.
+  intros ip ic text v Hp H.
+  exact (validate_loaded_never_raises_positions map_tree ip ic text v map_tree_wf map_tree_avoid_pos Hp H).
+Qed.
+
+(* without positions the guard of Part B implies this one: posok only constrains dicts with a __position__ key *)
+Lemma nopos_posok : forall v, nopos v = true -> posok v = true.
+Proof.
+  induction v as [| | | | |l IH|c items IH] using value_ind'; try reflexivity.
+  - rewrite nopos_list, posok_list. intros H. rewrite forallb_forall in *. rewrite Forall_forall in IH.
+    intros x Hx. apply IH; [exact Hx|apply H; exact Hx].
+  - rewrite nopos_dict, posok_dict_eq. intros H. apply andb_true_iff in H. destruct H as [Hm Hc].
+    apply negb_true_iff in Hm. apply andb_true_iff. split.
+    + unfold posok_dict. destruct c; cbn [contains]; rewrite ?lower_dposition, Hm; reflexivity.
+    + rewrite forallb_forall in *. rewrite Forall_forall in IH. intros kv Hkv.
+      rewrite (IH kv Hkv (Hc kv Hkv)). apply orb_true_r.
+Qed.
+
+(* ---------------------------------------------------------------- observations *)
+Definition observeP (tree : json) (ip ic : bool) (text : str) : option (bool * bool) :=
+  match loads ip ic text with
+  | Ok v => Some (posok_any v, match run_validator tree v with Ok _ => true | Err _ => false end)
+  | Err _ => None
+  end.
+
+Lemma observeP_spec tree ip ic text g k :
+  observeP tree ip ic text = Some (g, k) ->
+  exists v, loads ip ic text = Ok v /\ posok_any v = g /\
+            ((exists msgs, run_validator tree v = Ok msgs) <-> k = true).
+Proof.
+  unfold observeP. destruct (loads ip ic text) as [v|e]; [|discriminate]. intros H.
+  assert (Hg : posok_any v = g) by congruence.
+  assert (Hk : match run_validator tree v with Ok _ => true | Err _ => false end = k) by congruence.
+  exists v. split; [reflexivity|]. split; [exact Hg|]. rewrite <- Hk.
+  destruct (run_validator tree v) as [msgs|e]; split.
+  - reflexivity.
+  - intros _. eexists. reflexivity.
+  - intros (msgs & Hm). discriminate Hm.
+  - discriminate.
+Qed.
+
+(* both hypotheses are needed while the tree is universally quantified (artificial trees; with the
+   shipped map schema validate returns on all of these texts, see guard_false_map_tree_returns) *)
+Definition prop1 (k : str) (s : json) : json := JObj [(Str "properties", JObj [(k, s)])].
+Definition items1 (s : json) : json := JObj [(Str "items", s)].
+Definition t_integer : json := JObj [(Str "type", JStr (Str "integer"))].
+Definition t_required : json := JObj [(Str "required", JArr [JStr (Str "zzz")])].
+
+(* a key-value block key spelled like an entry of its own position record (line / column / values) *)
+Definition gp_tree_line : json := prop1 (Str "web") (prop1 (Str "metadata") (prop1 (Str "line") t_integer)).
+Definition gp_text_line : str := Str "MAP WEB METADATA ""line"" ""x"" END END END".
+Definition gp_tree_values : json := prop1 (Str "web") (prop1 (Str "metadata") (prop1 (Str "values") t_integer)).
+Definition gp_text_values : str := Str "MAP WEB METADATA ""values"" ""x"" END END END".
+(* a CONFIG key spelled __position__ *)
+Definition gp_tree_config : json := prop1 (Str "config") (prop1 (Str "k") t_integer).
+Definition gp_text_config : str := Str "MAP CONFIG ""__position__"" ""x"" CONFIG ""k"" ""v"" END".
+(* an attribute spelled __type__ whose value is spelled like an entry of the leaked record *)
+Definition gp_text_type : str := Str "MAP __type__ line END".
+(* a tree that looks below __position__: an error located at a per-occurrence record, which has no __type__ *)
+Definition ap_tree : json :=
+  prop1 (Str "layers") (items1 (prop1 (Str "__position__") (prop1 (Str "processing") (items1 t_required)))).
+Definition ap_text : str := Str "MAP LAYER PROCESSING ""a"" END END".
+
+Lemma gp_tree_line_ok : wf_schema gp_tree_line = true /\ avoid_pos gp_tree_line = true.
+Proof. split; vm_compute; reflexivity. Qed.
+Lemma gp_tree_values_ok : wf_schema gp_tree_values = true /\ avoid_pos gp_tree_values = true.
+Proof. split; vm_compute; reflexivity. Qed.
+Lemma gp_tree_config_ok : wf_schema gp_tree_config = true /\ avoid_pos gp_tree_config = true.
+Proof. split; vm_compute; reflexivity. Qed.
+Lemma art_tree_line_ok : wf_schema art_tree_line = true /\ avoid_pos art_tree_line = true.
+Proof. split; vm_compute; reflexivity. Qed.
+Lemma ap_tree_ok : wf_schema ap_tree = true /\ avoid_pos ap_tree = false.
+Proof. split; vm_compute; reflexivity. Qed.
+
+Lemma gp_line_observed : observeP gp_tree_line true false gp_text_line = Some (false, false).
+Proof. vm_compute. reflexivity. Qed.
+Lemma gp_values_observed : observeP gp_tree_values true false gp_text_values = Some (false, false).
+Proof. vm_compute. reflexivity. Qed.
+Lemma gp_config_observed : observeP gp_tree_config true false gp_text_config = Some (false, false).
+Proof. vm_compute. reflexivity. Qed.
+Lemma gp_type_observed : observeP art_tree_line true false gp_text_type = Some (false, false).
+Proof. vm_compute. reflexivity. Qed.
+Lemma ap_observed : observeP ap_tree true false ap_text = Some (true, false).
+Proof. vm_compute. reflexivity. Qed.
+
+Lemma raises_of_observed tree ip ic text g :
+  observeP tree ip ic text = Some (g, false) ->
+  exists v, loads ip ic text = Ok v /\ posok_any v = g /\ ~ exists msgs, run_validator tree v = Ok msgs.
+Proof.
+  intros H. destruct (observeP_spec _ _ _ _ _ _ H) as (v & Hl & Hg & Hk). exists v.
+  split; [exact Hl|]. split; [exact Hg|]. intros Hm. apply Hk in Hm. discriminate Hm.
+Qed.
+
+Definition unguarded_raises (tree : json) (text : str) : Prop :=
+  wf_schema tree = true /\ avoid_pos tree = true /\
+  exists v, loads true false text = Ok v /\ posok_any v = false /\ ~ exists msgs, run_validator tree v = Ok msgs.
+
+Theorem validate_loaded_never_raises_positions_unguarded_refuted_kv_key_line :
+  exists tree text, unguarded_raises tree text.
+Proof.
+  exists gp_tree_line, gp_text_line. destruct gp_tree_line_ok as [A B].
+  split; [exact A|split; [exact B|]]. exact (raises_of_observed _ _ _ _ _ gp_line_observed).
+Qed.
+
+Theorem validate_loaded_never_raises_positions_unguarded_refuted_kv_key_values :
+  exists tree text, unguarded_raises tree text.
+Proof.
+  exists gp_tree_values, gp_text_values. destruct gp_tree_values_ok as [A B].
+  split; [exact A|split; [exact B|]]. exact (raises_of_observed _ _ _ _ _ gp_values_observed).
+Qed.
+
+Theorem validate_loaded_never_raises_positions_unguarded_refuted_config_key :
+  exists tree text, unguarded_raises tree text.
+Proof.
+  exists gp_tree_config, gp_text_config. destruct gp_tree_config_ok as [A B].
+  split; [exact A|split; [exact B|]]. exact (raises_of_observed _ _ _ _ _ gp_config_observed).
+Qed.
+
+Theorem validate_loaded_never_raises_positions_unguarded_refuted_type_attribute :
+  exists tree text, unguarded_raises tree text.
+Proof.
+  exists art_tree_line, gp_text_type. destruct art_tree_line_ok as [A B].
+  split; [exact A|split; [exact B|]]. exact (raises_of_observed _ _ _ _ _ gp_type_observed).
+Qed.
+
+(* without avoid_pos: the guard on the value holds, validate raises (KeyError: the record has no __type__) *)
+Theorem validate_loaded_never_raises_positions_tree_guard_refuted :
+  exists tree text v, wf_schema tree = true /\ avoid_pos tree = false /\ loads true false text = Ok v /\
+                      posok_any v = true /\ ~ exists msgs, run_validator tree v = Ok msgs.
+Proof.
+  exists ap_tree, ap_text. destruct (raises_of_observed _ _ _ _ _ ap_observed) as (v & H1 & H2 & H3).
+  exists v. destruct ap_tree_ok as [A B]. auto.
+Qed.
+
+(* with the shipped map schema validate returns on every text above although the guard is false:
+   the map schema gives no sub-schema to METADATA / CONFIG keys nor to unknown list keys *)
+Lemma guard_false_map_tree_returns :
+  map (observeP map_tree true false) [gp_text_line; gp_text_values; gp_text_config; gp_text_type]
+  = [Some (false, true); Some (false, true); Some (false, true); Some (false, true)].
+Proof. vm_compute. reflexivity. Qed.
+
+(* non-vacuity: the guard holds, with positions and comments, on documents with repeatable keywords,
+   repeated POINTS, faults inside them (the former counterexample), a keyword spelled LINE, and the
+   __type__ / METADATA "__position__" quirks of Part B *)
+Definition pos_texts : list str :=
+  [sample_text; w_pos_text; w_pos_text2;
+   Str "MAP LAYER TYPE POINT FEATURE POINTS 1 2 END POINTS 3 4 END END END END";
+   Str "MAP LINE 5 END"; w_type_text; w_layer_text].
+
+Lemma pos_texts_observed :
+  map (observeP map_tree true true) pos_texts = map (fun _ => Some (true, true)) pos_texts /\
+  map (observeP map_tree true false) (w_meta_text :: pos_texts) = map (fun _ => Some (true, true)) (w_meta_text :: pos_texts).
+Proof. split; vm_compute; reflexivity. Qed.
+
+Lemma sample_observedP : observeP map_tree true true sample_text = Some (true, true).
+Proof. vm_compute. reflexivity. Qed.
+
+Example validate_loaded_never_raises_positions_inhabited :
+  exists v, loads true true sample_text = Ok v /\ posok_any v = true /\
+            exists msgs, run_validator map_tree v = Ok msgs.
+Proof.
+  destruct (observeP_spec _ _ _ _ _ _ sample_observedP) as (v & Hl & Hg & Hk). exists v.
+  split; [exact Hl|]. split; [exact Hg|]. apply Hk. reflexivity.
+Qed.
